@@ -151,6 +151,8 @@ pub enum FileFaultKind {
     DupAs(String),
     /// move to another name (same directory)
     RenameTo(String),
+    /// a new symbolic link at `path` (of the fault) pointing to `target`
+    NewSymlink { target: String },
 }
 
 #[derive(Clone, Debug, Serialize, Deserialize, PartialEq)]
@@ -623,6 +625,13 @@ fn collect(level: &LevelSpec, reldir: &str, keyspecs: &[KeySpec], out: &mut Vec<
 }
 
 fn apply_file_fault(stored: &mut Vec<Stored>, ff: &FileFault, fired: &mut Vec<String>) {
+    if let FileFaultKind::NewSymlink { target } = &ff.kind {
+        if !stored.iter().any(|s| s.path == ff.path) {
+            stored.push(Stored { path: ff.path.clone(), state3: Value::Null, bytes: vec![], special: Some(format!("symlink:{target}")), unsignable: false });
+            fired.push("SYMLINK".into());
+        }
+        return;
+    }
     let idx = match stored.iter().position(|s| s.path == ff.path) {
         Some(i) => i,
         None => return,
@@ -697,6 +706,7 @@ fn apply_file_fault(stored: &mut Vec<Stored>, ff: &FileFault, fired: &mut Vec<St
                 fired.push("DUPFILE".into());
             }
         }
+        FileFaultKind::NewSymlink { .. } => {}
         FileFaultKind::RenameTo(name) => {
             if ff.path == "@layout" {
                 return;
@@ -771,6 +781,10 @@ pub fn materialise(
             Some("dangling") => {
                 std::os::unix::fs::symlink("/nonexistent/scsim-dangling", &full)?;
                 FileTruth::Special("dangling".into())
+            }
+            Some(sp) if sp.starts_with("symlink:") => {
+                let _ = std::os::unix::fs::symlink(&sp[8..], &full);
+                FileTruth::Special("symlink".into())
             }
             Some("fifo") => {
                 let c = std::ffi::CString::new(full.to_string_lossy().as_bytes()).unwrap();
